@@ -3,6 +3,7 @@ package main
 import (
 	"fmt"
 	"os"
+	"runtime"
 	"runtime/pprof"
 	"strings"
 	"time"
@@ -280,6 +281,18 @@ func diag() {
 			}
 		}
 		fmt.Println(tally)
+		return
+	}
+	if os.Getenv("SEQ_INPUT_DIAG") == "soakprof" {
+		// heap profiles around the second half of one soak class (SEQ_INPUT_SOAK=<class>), for go tool pprof -base
+		for _, c := range soakClasses() {
+			if c.name == os.Getenv("SEQ_INPUT_SOAK") {
+				soakProfile = "/tmp/seq_input_soak"
+				runtime.MemProfileRate = 1
+				k, m := h.soak(c, 2000, 10000)
+				fmt.Println(k, m)
+			}
+		}
 		return
 	}
 	if f := os.Getenv("SEQ_INPUT_PROF"); f != "" {
